@@ -176,7 +176,7 @@ fn tagged_position(mmsi: u32, noise: &[u8]) -> Vec<u8> {
 }
 
 fn stream_line() -> impl Strategy<Value = Vec<Vec<u8>>> {
-    let hi = || (128u8..=255);
+    let hi = || 128u8..=255;
     prop_oneof![
         // valid, identifiable
         5 => (any::<u32>(), proptest::collection::vec(any::<u8>(), 24)).prop_map(|(m, n)| vec![tagged_position(m & 0x3fff_ffff, &n)]),
@@ -277,6 +277,6 @@ pub fn run(ctx: &mut Ctx) {
     for s in [&b""[..], b"\n", b"\n\n\n", b"no newline at all", b"\xff\n", b"!AIVDM,1,1,,A,15,0*00\n\xfe\xfd\n!AIVDM,1,1,,B,177KQJ5000G?tO`K>RA1wUbN0TKH,0*5C\n", b"\r\n\r\n"] {
         ctx.sweep_case("fixed-streams", &STD, &Input::Stream { bytes: s.to_vec() }, check);
     }
-    let n = ctx.tier.pick(500, 20_000);
-    ctx.run_proptest("generated-streams", &STD, n, streams(), check);
+    let n = ctx.tier.pick(2_000, 20_000);
+    ctx.run_proptest_serial("generated-streams", &STD, n, streams(), check);
 }
